@@ -215,6 +215,9 @@ func (d *Dialer) dial() (*DialContext, error) {
 	if d.mode == Advertise {
 		restore, err = d.setAutoconf()
 		if err != nil {
+			// The connection will not be handed to the caller, so it must be
+			// closed here to avoid leaking a socket on every failed attempt.
+			_ = conn.Close()
 			return nil, err
 		}
 	}
